@@ -19,15 +19,20 @@ EXTENDS Deflate, TLC, Json
 
 CONSTANTS MaxTok,     \* tokens per Huffman block
           MaxBlk,     \* blocks per stream
-          RepZero     \* allow code 16 (repeat previous length) right after a zero length
+          RepZero,    \* allow code 16 (repeat previous length) right after a zero length
                       \* (legal; the library under test rejects most such headers)
+          Mode        \* "mixed": anything goes; "far": a long stored block first, then dynamic
+                      \* blocks whose far distance symbols get the longest codes
 
-VARIABLES fields, toks, blocks, outpos, bitpos, phase, btype, nblk, fin, feat, tailn
-vars == <<fields, toks, blocks, outpos, bitpos, phase, btype, nblk, fin, feat, tailn>>
+VARIABLES fields, toks, blocks, outpos, bitpos, phase, btype, nblk, fin, feat, tailn, modes
+vars == <<fields, toks, blocks, outpos, bitpos, phase, btype, nblk, fin, feat, tailn, modes>>
 
 \* pseudo-random bytes as a deterministic function of one random seed (function
 \* literals are evaluated lazily, so they must not contain random draws)
 ByteOf(seed, i) == (seed * (i + 7) + i * i * 31 + (seed \div (i + 1))) % 256
+\* a long run of varied bytes in closed form, kept within 32 bit arithmetic; a field
+\* <<seed, 8, 2, n>> stands for the n bytes Varied(seed, 1) .. Varied(seed, n)
+Varied(seed, i) == (((i % 251) * (i % 241)) + (i \div 7) * 13 + seed) % 256
 
 Rnd(S) == RandomElement(S)
 Coin(n) == RandomElement(1..n) = 1
@@ -44,6 +49,21 @@ RECURSIVE Assign(_, _, _)
 AssignStep(U, depths, acc, s) == Assign(U \ {s}, Tail(depths), [acc EXCEPT ![s] = Head(depths)])
 Assign(U, depths, acc) == IF U = {} THEN acc ELSE AssignStep(U, depths, acc, Rnd(U))
 RandLens(dom, U, maxd) == Assign(U, RandDepths(Cardinality(U), maxd), [s \in dom |-> 0])
+
+\* ---- maximally skewed complete code: depths 1, 2, ..., n-1, n-1 (n <= 16), the longest
+\* codes going to the largest symbols (far distances, which also carry the most extra bits)
+RECURSIVE SortedSeq(_)
+SetMin(S) == CHOOSE m \in S : \A x \in S : m <= x
+SortedSeq(S) == IF S = {} THEN <<>> ELSE <<SetMin(S)>> \o SortedSeq(S \ {SetMin(S)})
+SkewLensFrom(dom, syms) ==
+  [s \in dom |-> IF \E i \in 1..Len(syms) : syms[i] = s
+                 THEN LET i == CHOOSE j \in 1..Len(syms) : syms[j] = s
+                      IN IF i = Len(syms) THEN Len(syms) - 1 ELSE i
+                 ELSE 0]
+SkewLens(dom, U) == SkewLensFrom(dom, SortedSeq(U))
+\* grow U to exactly n symbols of dom (n <= |dom|)
+RECURSIVE GrowTo(_, _, _)
+GrowTo(U, dom, n) == IF Cardinality(U) >= n THEN U ELSE GrowTo(U \cup {Rnd(dom \ U)}, dom, n)
 
 \* ---- random legal run-length coding of a code length sequence
 RECURSIVE Run(_, _, _)
@@ -86,13 +106,14 @@ DistClasses == << 1..1, 2..4, 5..256, 257..4096, 4097..32768 >>
 DistLo      == << 1, 2, 5, 257, 4097 >>
 
 Init == /\ fields = <<>> /\ toks = <<>> /\ blocks = <<>> /\ outpos = 0 /\ bitpos = 0
-        /\ phase = "hdr" /\ btype = 0 /\ nblk = 0 /\ fin = 0 /\ feat = {} /\ tailn = 0
+        /\ phase = "hdr" /\ btype = 0 /\ nblk = 0 /\ fin = 0 /\ feat = {} /\ tailn = 0 /\ modes = {}
 
 \* block type: stored (0), fixed (1), dynamic (2)
+BlockTypes == IF Mode = "far" THEN (IF nblk = 0 THEN {0} ELSE {2}) ELSE {0, 1, 2}
 StartBlock == /\ phase = "hdr" /\ nblk < MaxBlk
-              /\ \E t \in {0, 1, 2} : btype' = t /\ phase' = (IF t = 0 THEN "stored" ELSE "tok")
+              /\ \E t \in BlockTypes : btype' = t /\ phase' = (IF t = 0 THEN "stored" ELSE "tok")
               /\ toks' = <<>> /\ nblk' = nblk + 1
-              /\ UNCHANGED <<fields, blocks, outpos, bitpos, fin, feat, tailn>>
+              /\ UNCHANGED <<fields, blocks, outpos, bitpos, fin, feat, tailn, modes>>
 
 FinalFlag(f) == (nblk = MaxBlk => f = 1)
 
@@ -101,22 +122,23 @@ FinalFlag(f) == (nblk = MaxBlk => f = 1)
 StoredBody(f, padbits, padv, n, big, seed) ==
   LET hdr == HeaderFields(f, 0) \o << F(padv, padbits) >>
       lens == << F(n, 16), F(65535 - n, 16) >>
-      body == IF big THEN << Rep(0, 8, n) >> ELSE [i \in 1..n |-> F(ByteOf(seed, i), 8)]
+      body == IF big THEN (IF Mode = "far" THEN << <<seed, 8, 2, n>> >> ELSE << Rep(0, 8, n) >>)
+              ELSE [i \in 1..n |-> F(ByteOf(seed, i), 8)]
   IN hdr \o lens \o body
 EmitStored2(f, padbits, padv, n, big, seed, fs) ==
   /\ fields' = fields \o fs /\ bitpos' = bitpos + BitLen(fs)
   /\ blocks' = Append(blocks, [type |-> 0, final |-> f, toks |-> <<>>, pad |-> padv,
-                               data |-> IF big THEN << <<0, n>> >>
+                               data |-> IF big THEN (IF Mode = "far" THEN << <<seed, n, 1>> >> ELSE << <<0, n>> >>)
                                         ELSE [i \in 1..n |-> <<ByteOf(seed, i), 1>>]])
   /\ outpos' = outpos + n
   /\ feat' = feat \cup (IF padv # 0 THEN {"stored-pad"} ELSE {}) \cup (IF n = 0 THEN {"stored-empty"} ELSE {})
   /\ fin' = f /\ phase' = IF f = 1 THEN "eof" ELSE "hdr"
-  /\ UNCHANGED <<toks, btype, nblk, tailn>>
+  /\ UNCHANGED <<toks, btype, nblk, tailn, modes>>
 EmitStored(f, padbits, padv, n, big, seed) ==
   EmitStored2(f, padbits, padv, n, big, seed, StoredBody(f, padbits, padv, n, big, seed))
 Stored == /\ phase = "stored"
-          /\ \E f \in {0, 1}, cls \in {"empty", "short", "big", "huge"} :
-               /\ FinalFlag(f)
+          /\ \E f \in {0, 1}, cls \in (IF Mode = "far" THEN {"huge"} ELSE {"empty", "short", "big", "huge"}) :
+               /\ FinalFlag(f) /\ (Mode = "far" => f = 0)
                /\ \E padbits \in {(8 - ((bitpos + 3) % 8)) % 8} :
                   \E padv \in {IF Coin(2) THEN 0 ELSE Rnd(0..(Pow2(padbits) - 1))} :
                   \E n \in {IF cls = "empty" THEN 0 ELSE IF cls = "short" THEN Rnd(1..24)
@@ -127,10 +149,10 @@ Stored == /\ phase = "stored"
 LitTok == /\ phase = "tok" /\ Len(toks) < MaxTok
           /\ \E c \in {0..143, 144..255} : toks' = Append(toks, Lit(Rnd(c)))
           /\ outpos' = outpos + 1
-          /\ UNCHANGED <<fields, blocks, bitpos, phase, btype, nblk, fin, feat, tailn>>
+          /\ UNCHANGED <<fields, blocks, bitpos, phase, btype, nblk, fin, feat, tailn, modes>>
 
 RefTok == /\ phase = "tok" /\ Len(toks) < MaxTok /\ outpos > 0
-          /\ \E lc \in 1..5, dc \in 1..5 :
+          /\ \E lc \in 1..5, dc \in (IF Mode = "far" THEN 4..5 ELSE 1..5) :
                /\ DistLo[dc] <= outpos
                /\ \E l \in {Rnd(LenClasses[lc])} :
                   \E d \in {Rnd({x \in DistClasses[dc] : x <= outpos})} :
@@ -138,13 +160,13 @@ RefTok == /\ phase = "tok" /\ Len(toks) < MaxTok /\ outpos > 0
                      /\ toks' = Append(toks, Ref(l, d, irr))
                      /\ outpos' = outpos + l
                      /\ feat' = feat \cup (IF irr THEN {"irr258"} ELSE {})
-          /\ UNCHANGED <<fields, blocks, bitpos, phase, btype, nblk, fin, tailn>>
+          /\ UNCHANGED <<fields, blocks, bitpos, phase, btype, nblk, fin, tailn, modes>>
 
 \* a Huffman block may be empty (end-of-block code only)
 EndBlock == /\ phase = "tok"
             /\ \E f \in {0, 1} : FinalFlag(f) /\ fin' = f
             /\ phase' = "emit"
-            /\ UNCHANGED <<fields, toks, blocks, outpos, bitpos, btype, nblk, feat, tailn>>
+            /\ UNCHANGED <<fields, toks, blocks, outpos, bitpos, btype, nblk, feat, tailn, modes>>
 
 UsedLit  == {256} \cup {LitLenSym(toks[i]) : i \in 1..Len(toks)}
 UsedDist == {DistSym(toks[i]) : i \in {j \in 1..Len(toks) : toks[j].k = "R"}}
@@ -170,21 +192,41 @@ EmitDyn(llen, dlen, hlit, hdist, dh, fs) ==
                   \cup (IF RepeatAfterZero(dh.items) THEN {"repeat-after-zero"} ELSE {})
                   \cup (IF hlit > SetMax({s \in 0..285 : llen[s] > 0}) + 1 THEN {"hlit-slack"} ELSE {})
                   \cup (IF dh.hclen > Max(4, LastNz(dh.cl)) THEN {"hclen-slack"} ELSE {})
+\* shapes of the distance code: a random complete code; a maximally skewed one; or what
+\* zlib also accepts although the code is incomplete: a single code of length 1, or no
+\* distance code at all (the library under test insists on complete codes)
+DistLens(mode, UD) ==
+  IF mode = "minimal" THEN [s \in 0..29 |-> IF s \in UsedDist THEN 1 ELSE 0]
+  ELSE IF mode = "skew" THEN SkewLens(0..29, GrowTo(UD, 0..29, 16))
+  ELSE RandLens(0..29, UD, 15)
+DistModes == IF Mode = "far" THEN {"skew"}
+             ELSE IF Cardinality(UsedDist) <= 1 THEN {"random", "random", "skew", "minimal"}
+             ELSE {"random", "random", "skew"}
+LitLens(mode, UL) ==
+  IF mode = "minimal" THEN [s \in 0..285 |-> IF s = 256 THEN 1 ELSE 0]
+  ELSE IF mode = "skew" THEN SkewLens(0..285, GrowTo(UL, 0..285, 16))
+  ELSE RandLens(0..285, UL, 15)
+LitModes == IF toks = <<>> THEN {"random", "minimal"}
+            ELSE IF Cardinality(UsedLit) <= 14 THEN {"random", "random", "skew"} ELSE {"random"}
 EmitBlock ==
   /\ phase = "emit"
   /\ IF btype = 1 THEN
         EmitFixed(HeaderFields(fin, 1)
                   \o BlockBody(toks, Canon(FixedLitLens), FixedLitLens, Canon(FixedDistLens), FixedDistLens))
      ELSE
+        \E lmode \in { Rnd(LitModes) } :
+        \E dmode \in { Rnd(DistModes) } :
         \E UL \in { Extra(PadLit(UsedLit), 0..285) } :
         \E UD \in { Extra(PadDist(UsedDist), 0..29) } :
-        \E llen \in { RandLens(0..285, UL, 15) } :
-        \E dlen \in { RandLens(0..29, UD, 15) } :
-        \E hlit \in { Rnd(Max(257, SetMax(UL) + 1)..286) } :
-        \E hdist \in { Rnd((SetMax(UD) + 1)..30) } :
+        \E llen \in { LitLens(lmode, UL) } :
+        \E dlen \in { DistLens(dmode, UD) } :
+        \E hlit \in { Rnd(Max(257, SetMax({s \in 0..285 : llen[s] > 0}) + 1)..286) } :
+        \E hdist \in { Rnd((SetMax({s \in 0..29 : dlen[s] > 0} \cup {0}) + 1)..30) } :
         \E dh \in { DynHeader(llen, dlen, hlit, hdist) } :
-          EmitDyn(llen, dlen, hlit, hdist, dh,
-                  HeaderFields(fin, 2) \o dh.fields \o BlockBody(toks, Canon(llen), llen, Canon(dlen), dlen))
+          /\ EmitDyn(llen, dlen, hlit, hdist, dh,
+                     HeaderFields(fin, 2) \o dh.fields \o BlockBody(toks, Canon(llen), llen, Canon(dlen), dlen))
+          /\ modes' = modes \cup {<<"lit", lmode>>, <<"dist", dmode>>}
+  /\ (btype = 1 => modes' = modes)
   /\ phase' = IF fin = 1 THEN "eof" ELSE "hdr"
   /\ UNCHANGED <<toks, outpos, btype, nblk, fin, tailn>>
 
@@ -199,7 +241,7 @@ Eof == /\ phase = "eof"
             /\ tailn' = ntail
             /\ bitpos' = bitpos + padbits
        /\ phase' = "done"
-       /\ UNCHANGED <<toks, blocks, outpos, btype, nblk, fin>>
+       /\ UNCHANGED <<toks, blocks, outpos, btype, nblk, fin, modes>>
 
 Next == StartBlock \/ Stored \/ LitTok \/ RefTok \/ EndBlock \/ EmitBlock \/ Eof
 Spec == Init /\ [][Next]_vars
@@ -213,5 +255,5 @@ BlockJ(b) == IF b.type = 2
 Replay == phase = "done" =>
    PrintT(<<"REPLAY", ToJson([fields |-> fields, plain |-> outpos, bits |-> bitpos, tail |-> tailn,
                               blocks |-> [i \in 1..Len(blocks) |-> BlockJ(blocks[i])],
-                              feat |-> feat])>>)
+                              feat |-> feat \cup {m[1] \o "-" \o m[2] : m \in modes}])>>)
 =============================================================================
